@@ -392,7 +392,10 @@ class Monitor:
             if d > n * 1e-12 * c:
               out.append(('R-I3', f'{world}: uniform tracer mean drifted by {d:.3e} '
                           f'after {n_steps} steps'))
-      if name.endswith('sim_time') and t_expected is not None:
+      if name.endswith('sim_time') and a.ndim != 0:
+        out.append(('R-I4', f'{world}: carried clock {name} is no longer a scalar '
+                    f'(shape {a.shape}) after {n_steps} steps'))
+      elif name.endswith('sim_time') and t_expected is not None:
         want = t_expected.get(name.split('sim_time')[0], None)
         if want is not None:
           d = abs(float(a) - want)
@@ -800,7 +803,8 @@ class Run:
     for k in before:
       if not np.array_equal(np.asarray(before[k]), np.asarray(after[k])):
         self.report('R-CLOCK-FROZEN', f'{name} changed the carried clock {k}: '
-                    f'{float(before[k])!r} -> {float(after[k])!r}', i, event=name)
+                    f'{np.asarray(before[k]).tolist()!r} -> '
+                    f'{np.asarray(after[k]).tolist()!r}'[:300], i, event=name)
     ok, msg = self.compare_with_ref(i, name)
     if not ok:
       tag = 'R-RESHARD-REFINE' if (sut.layout.get('mesh') or sut.layout.get('base')) else 'R-ADVANCE'
@@ -812,7 +816,10 @@ class Run:
     job = dict(self.job)
     job['filters'] = [ev['filter']]
     leap = self.job['integrator'] == 'semi_implicit_leapfrog'
-    if ev['filter']['kind'] == 'ra' and not leap:
+    if ev['filter']['kind'] == 'ra':
+      # the Robert-Asselin filter mixes three time levels of a leapfrog pair; applied
+      # outside a step it legitimately moves the filtered slot's clock - not a
+      # state filter, so not a FILTER_ONLY candidate
       return
     f_sut = build_filters(job, self.sut.coords.horizontal)[0]
     f_ref = build_filters(job, self.ref.coords.horizontal)[0]
